@@ -8,7 +8,7 @@ VERIF = os.path.dirname(os.path.dirname(os.path.abspath(__file__)))
 CHECKS = {
     "C17": dict(
         category="model_checking", design_ref="DESIGN.md §7 C17",
-        technique="TLA+ bit-set model of the shift/or/mask network (constants extracted from morton.go), TLC exhaustive on generators; TLC vectors replayed into ToZ/FromZ; records of the real code validated against the model by TLC; TLAPS proof of union-linearity of every stage (MortonProofs.tla)",
+        technique="TLA+ bit-set model of the shift/or/mask network (constants extracted from morton.go), TLC exhaustive on generators; TLC vectors replayed into ToZ/FromZ; records of the real code validated against the model by TLC; TLAPS proof of union-linearity of every stage (MortonProofs.tla); vertices inserted into point indexes deeper than 32 levels (WebMercatorQuad 21-24) must be reported when their pixel address needs 33 bits (DeepOK)",
         text="TLC checks exhaustively (17 457 generator pairs, every stage a state) that the network read out of morton.go equals bit interleaving, inverts, and commutes with the parent shift; every TLC vector is replayed through the real ToZ/FromZ, and records of the real code on random wide words (key, ok flag, MustToZ reporting, union-linearity, parent, child keys incl. parents whose children need 33 bits, decode) are judged by the same model, which lifts the generator check to all 2^64 pairs.",
         note="Trusted: Go uint is 64-bit with set-like |,&,<<,>>; the transcription of the loop bodies (bound by replay and trace records); TLC."),
 }
@@ -47,7 +47,7 @@ CHECKS["C06"] = dict(
     note=SNAPNOTE + " The time bound is a loose cubic (no hang), wall clock measured by the driver.")
 CHECKS["C07"] = dict(
     category="model_checking", design_ref="DESIGN.md §7 C07",
-    technique="trace validation against SnapTrace.tla: relational invariants over the records of one input (repeated call, second process, reversed rings, reverse flag); input equality decided by TLC",
+    technique="trace validation against SnapTrace.tla: relational invariants over the records of one input (repeated call, second process, reversed rings, reverse flag); input equality decided by TLC; the repeated call snaps the SAME polygon value again and the input must be left untouched (C07_InputUntouched)",
     text="Each input is snapped twice in-process and once in a separate process, with each ring direction changed and with the reverse flag toggled; TLC demands identical results, resp. ring-wise (cyclically) reversed results.",
     note=SNAPNOTE)
 CHECKS["C08"] = dict(
@@ -81,7 +81,7 @@ CHECKS["C12"] = dict(
 
 CHECKS["C13"] = dict(
     category="model_checking", design_ref="DESIGN.md §7 C13",
-    technique="TLA+ model of the tool (Cli.tla: validation gate, target naming on character sequences, overwrite, per-table loop) checked by TLC; every run of the real binary recorded with the library's own results and judged by CliTrace.tla; TLC-enumerated safe target paths replayed through the binary",
+    technique="TLA+ model of the tool (Cli.tla: validation gate, target naming on character sequences, overwrite, per-table loop) checked by TLC; every run of the real binary recorded with the library's own results and judged by CliTrace.tla; TLC-enumerated safe target paths replayed through the binary; the deviation the tool reports at validation must be the one of the deepest requested tile matrix (CliTrace!DeviationReported, last sentence of C03)",
     text="Design: file-system state machine for all flag / pre-existing-file / validation / outside-grid combinations. Code: the real binary (built from the working tree with the verif tag) runs on random multi-table sources; TLC decides from the recorded facts which files must exist (TargetPath on characters), which rows in which order each table must hold, the geometry class, and that each polygon row's geometry is the library's result for THAT file's tile matrix; 24-300 of the 2028 TLC path vectors are each run through the binary.",
     note="Trusted: TLC; the harness's direct library call as oracle (as the property states); DeepEqual geometry/attribute comparison; SQLite stub for libspatialite.")
 
@@ -98,7 +98,7 @@ CHECKS["C15"] = dict(
 
 CHECKS["C03"] = dict(
     category="model_checking", design_ref="DESIGN.md §7 C03",
-    technique="trace validation (RealTrace.tla): SnapPolygon calls on all 7 accepted built-in sets; per returned coordinate the harness computes from the JSON document with exact rationals the distance to the ideal pixel centre, and TLC compares it with the deviation the tool reports (+2 ulp); exact-centre check on synthetic grids with tile widths 1..256",
+    technique="trace validation (RealTrace.tla): SnapPolygon calls on all 7 accepted built-in sets; per returned coordinate the harness computes from the JSON document with exact rationals the distance to the ideal pixel centre, and TLC compares it with the deviation the tool reports (+2 ulp); exact-centre check on synthetic grids with tile widths 1..256; the deviation printed by the real binary is bound in C13 (CliTrace!DeviationReported)",
     text="Every built-in set accepted by validation, ids 0..20 in random subsets of 1-3 (and ids beyond quadtree level 32), polygons at random places including the origin corner and near the far corner. Four TLC passes: all sets within deviation + document-inconsistency term; the four sets with exact documents strictly within the deviation; the three sets of known finding F8 are confirmed to exceed only by the document-inconsistency term; deep ids fall under known finding F9. A wrong level offset, factor 16 or origin corner is off by a large fraction of a pixel and fails every pass.",
     note="Trusted: TLC; math/big computation of index/offset/ulp from the document text; DeviationStats as the source of the reported deviation (as the property names it).")
 
